@@ -343,7 +343,7 @@ Proof.
   { intros. unfold w_inpl. rewrite inplace_spmv_same. apply moved_spmv_is_source_spmv. apply split_ranks_length. }
   assert (Hne : forall a b : QcS, seqb a b = false -> a <> b).
   { intros a b H E. apply (proj2 (QcS_eqb a b)) in E. rewrite E in H. discriminate. }
-  intro D'. subst D'. split; [vm_compute; reflexivity|].
+  intro D'. subst D'. split; [reflexivity|].
   split; [intro E; apply (f_equal rem_colss) in E; vm_compute in E; discriminate|].
   split; [vm_compute; reflexivity|]. split; [vm_compute; reflexivity|].
   split; [apply Hne; vm_compute; reflexivity|].
